@@ -194,6 +194,15 @@ def reconcile_tables(res):
                                  reported=float(b[j]) if j >= 0 else None)
                 s[key + "_tap"] = a
                 s[key] = np.array(b, dtype=float)
+    # one row per day of the window in each table
+    want_rows = tr.init.get("n_span")
+    if want_rows is not None:
+        for key, tab in (("flux", flux), ("stor_row", stor), ("growth", growth)):
+            if len(tab) != want_rows:
+                n += abs(int(want_rows) - len(tab))
+                if first is None:
+                    first = dict(t=min(len(tab), int(want_rows)), table=key, col=0, step_value=None,
+                                 reported=float("nan"), rows=len(tab), expected_rows=int(want_rows))
     # rows of days no step was executed for (skipped off-season days, days after termination)
     # must be empty: anything there was not produced by this run
     done = np.zeros(len(flux), dtype=bool)
